@@ -242,27 +242,91 @@ class OpTaint:
                                 work.append(g)
 
 
+_RAW_CACHE = {}
+
+
+def raw_output_text(prog, f):
+    """Literal text that can reach what f returns / writes / collects
+    without passing through the comment formatter (per function, over all
+    its paths, helpers of the module inlined)."""
+    if f.qual in _RAW_CACHE and _RAW_CACHE[f.qual][0] is prog:
+        return _RAW_CACHE[f.qual][1]
+    from ..dte import inline_helpers
+    san = GEN + '._format_help_text'
+    try:
+        t = Table(prog, f, inline=inline_helpers(
+            prog, modules={GEN}, classes=False, exclude={san}),
+            handler_paths=False, max_depth=3, max_paths=20000)
+    except AnalysisError:
+        _RAW_CACHE[f.qual] = (prog, None)
+        return None
+    en = t.en
+
+    def hook(e):
+        if isinstance(e, ast.Name) and e.id in en.defs and isinstance(
+                en.defs[e.id], ast.AST):
+            return segments(en.defs[e.id], hook)
+        if isinstance(e, ast.Call) and prog.resolve(f.module, e.func) == san:
+            return [Hole('comment', 'SANITIZED', e)]
+        return None
+    texts = set()
+
+    def add(expr):
+        try:
+            segs = merge(segments(expr, hook))
+        except Unknown:
+            return
+
+        def flat(sg):
+            out = []
+            for x in sg:
+                if isinstance(x, Lit):
+                    out.append(x.text)
+                elif isinstance(x, Join):
+                    out.append('\x01' + flat(x.sep) + '\x01')
+                    if x.elem is not None:
+                        out.append(flat(x.elem))
+                    out.append('\x01')
+                else:
+                    out.append('\x01')
+            return ''.join(out)
+        texts.add(flat(segs))
+    for p in t.paths:
+        if p.outcome.kind == 'return' and p.outcome.expr is not None:
+            add(p.outcome.expr)
+        for ev in p.events:
+            if ev.kind == 'yield':
+                add(ev.node)
+            elif ev.kind == 'call':
+                mc = method_call(ev.node)
+                if (mc and mc[1] in ('append', 'write', 'writelines',
+                                     'extend')) or U(ev.node.func) == 'print':
+                    for a in ev.node.args:
+                        add(a)
+    out = '\x00'.join(sorted(texts))
+    _RAW_CACHE[f.qual] = (prog, out)
+    return out
+
+
 def only_commented(prog, f, expr):
-    """Is the template bound to a name whose every use is an argument of
-    the help-text (comment) formatter?"""
-    pm = parent_map(f.node)
-    par = pm.get(expr)
-    if not (isinstance(par, ast.Assign) and len(par.targets) == 1
-            and isinstance(par.targets[0], ast.Name)):
+    """Does the text of this template reach the output of f only through
+    the help-text (comment) formatter?  Decided by its literal fragments:
+    none of them occurs in what f returns / writes unsanitised."""
+    try:
+        segs = merge(segments(expr))
+    except Unknown:
         return False
-    name = par.targets[0].id
-    uses = [n for n in walk_no_nested(f.node) if isinstance(n, ast.Name)
-            and n.id == name and isinstance(n.ctx, ast.Load)]
-    if not uses:
+    frags = [x.text for x in segs if isinstance(x, Lit) and x.text.strip()]
+    if not frags or max(len(x) for x in frags) < 4:
         return False
-    for u in uses:
-        c = pm.get(u)
-        if isinstance(c, ast.keyword):
-            c = pm.get(c)
-        g = prog.callee_of(f, c) if isinstance(c, ast.Call) else None
-        if g is None or g.qual != GEN + '._format_help_text':
-            return False
-    return True
+    raw = raw_output_text(prog, f)
+    if raw is None:
+        return False
+    # the template reaches an output raw when all its literal pieces occur
+    # there in order
+    import re
+    pat = '.*?'.join(re.escape(x) for x in frags)
+    return not any(re.search(pat, txt, re.S) for txt in raw.split('\x00'))
 
 
 def quoted_holes(f, prog=None):
@@ -299,6 +363,36 @@ def quoted_holes(f, prog=None):
     return out
 
 
+def string_builders(f):
+    for n in walk_no_nested(f.node):
+        if isinstance(n, ast.BinOp) and isinstance(n.op, ast.Mod) and \
+                isinstance(n.left, ast.Constant) and isinstance(
+                    n.left.value, str):
+            yield n
+        elif isinstance(n, ast.JoinedStr):
+            yield n
+        elif isinstance(n, ast.Call) and method_call(n, 'format') and \
+                isinstance(method_call(n)[0], ast.Constant):
+            yield n
+
+
+def rule_line_templates(f):
+    """[(expr, value hole)] for templates of the shape
+    `"` <name> `": ` <value> ...  (a rule line of a policy file)."""
+    out = []
+    for x in string_builders(f):
+        try:
+            segs = merge(segments(x))
+        except Unknown:
+            continue
+        if len(segs) >= 4 and isinstance(segs[0], Lit) and \
+                segs[0].text == '"' and isinstance(segs[1], Hole) and \
+                isinstance(segs[2], Lit) and segs[2].text.startswith(
+                    '":') and isinstance(segs[3], Hole):
+            out.append((x, segs[2], segs[3]))
+    return out
+
+
 def check_quoted_hole(ctx):
     prog = ctx.prog
     mod = prog.module(GEN)
@@ -325,15 +419,8 @@ def check_quoted_hole(ctx):
                    'containing `"` yields an unloadable file')
     # rule lines written by templates: the value must be serialised or
     # quoted; count the rule-line templates so the rule is not vacuous
-    rule_lines = 0
-    for f in funcs:
-        for x in walk_no_nested(f.node):
-            if isinstance(x, ast.BinOp) and isinstance(x.op, ast.Mod) and \
-                    isinstance(x.left, ast.Constant) and isinstance(
-                        x.left.value, str) and x.left.value.startswith(
-                            '"%(name)s":'):
-                rule_lines += 1
-    ctx.floor('C18.QUOTED-HOLE', rule_lines, 2, 'rule-line templates')
+    rule_lines = sum(1 for f in funcs for _x in rule_line_templates(f))
+    ctx.floor('C18.QUOTED-HOLE', rule_lines, 1, 'rule-line templates')
     if not any(o['rule'] == 'C18.QUOTED-HOLE' for o in ctx.obligations):
         ctx.ob('C18.QUOTED-HOLE', True, ctx.where(mod, mod.tree), GEN,
                '%d rule-line templates' % rule_lines,
@@ -347,17 +434,10 @@ def check_serialized(ctx):
     mod = prog.module(GEN)
     n = 0
     for f in mod.functions.values():
-        for x in walk_no_nested(f.node):
-            if not (isinstance(x, ast.BinOp) and isinstance(x.op, ast.Mod)
-                    and isinstance(x.left, ast.Constant)
-                    and isinstance(x.left.value, str)
-                    and x.left.value.startswith('"%(name)s":')
-                    and isinstance(x.right, ast.Dict)):
-                continue
-            val = None
-            for k, v in zip(x.right.keys, x.right.values):
-                if is_const(k, 'check_str'):
-                    val = v
+        for x, sep, hole in rule_line_templates(f):
+            if sep.text.rstrip().endswith('"'):
+                continue            # quoted form: C18.QUOTED-HOLE
+            val = hole.node
             if val is None or not isinstance(val, ast.Call):
                 continue
             n += 1
@@ -456,33 +536,47 @@ def check_pop_guard(ctx):
 
 
 def check_keep_override(ctx):
+    from ..dte import inline_helpers
     prog = ctx.prog
     f = prog.func(GEN + '._convert_policy_json_to_yaml')
     fmt = prog.func(GEN + '._format_rule_default_yaml')
-    t = Table(prog, f)
+    san = GEN + '._format_help_text'
+    t = Table(prog, f, inline=inline_helpers(
+        prog, modules={GEN}, classes=False, exclude={fmt.qual, san}),
+        max_depth=4)
     W = ctx.where(f.module, f.node)
     n_eq = n_ne = 0
     bad = None
+
+    def is_equality(x):
+        x = t.expand(x)
+        return isinstance(x, ast.Compare) and len(x.ops) == 1 and \
+            isinstance(x.ops[0], ast.Eq) and 'SYM_e' in U(x)
     for p in t.paths:
         for e in p.events:
-            if e.kind != 'call' or prog.callee_of(f, e.node) is not fmt:
+            if e.kind != 'call' or prog.callee_of(
+                    prog.functions.get(e.frame, f), e.node) is not fmt:
+                continue
+            cr = kwarg(e.node, 'comment_rule', 2)
+            if cr is not None and is_equality(cr):
+                # comment_rule=(file rule == default): both cases at once
+                n_eq += 1
+                n_ne += 1
                 continue
             eq = [c for c in p.conds[:e.nconds] if c.kind == 'test'
-                  and isinstance(c.expr, ast.Compare) and isinstance(
-                      c.expr.ops[0], ast.Eq) and 'SYM_e' in U(c.expr)]
+                  and is_equality(c.expr)]
             if not eq:
                 bad = bad or (e, 'the formatter is called without comparing '
                               'the file rule with the default')
                 continue
-            cr = kwarg(e.node, 'comment_rule', 2)
             if eq[-1].pol:
                 n_eq += 1
-                if cr is not None and not is_const(cr, True):
+                if cr is not None and not is_const(t.expand(cr), True):
                     bad = bad or (e, 'a rule equal to its default is not '
                                   'commented out')
             else:
                 n_ne += 1
-                if not (cr is not None and is_const(cr, False)):
+                if not (cr is not None and is_const(t.expand(cr), False)):
                     bad = bad or (e, 'an overridden rule (different from '
                                   'its default) is rendered commented out: '
                                   'the override is lost')
@@ -494,17 +588,25 @@ def check_keep_override(ctx):
            'overrides stay effective in the converted file' if bad is None
            and n_ne else (bad[1] if bad else 'the converter never renders '
                           'an overridden rule uncommented'))
-    # extra rules (not among the defaults) are emitted uncommented
+    # extra rules (not among the defaults) are emitted uncommented: on a
+    # path with such a rule a plain `"name": value` line is collected
     ok = False
-    for n in walk_no_nested(f.node):
-        if isinstance(n, ast.For) and method_call(n.iter, 'items'):
-            for s in ast.walk(n):
-                if isinstance(s, ast.BinOp) and isinstance(s.op, ast.Mod) \
-                        and isinstance(s.left, ast.Constant):
-                    txt = s.left.value
-                    if not txt.lstrip().startswith('#') and txt.endswith(
-                            '\n'):
-                        ok = True
+    for p in t.paths:
+        for e in p.events:
+            if e.kind != 'call' or not method_call(e.node, 'append') or \
+                    not e.node.args:
+                continue
+            a0 = t.expand(e.node.args[0])
+            try:
+                segs = merge(segments(a0))
+            except Unknown:
+                continue
+            if len(segs) >= 3 and isinstance(segs[0], Lit) and not \
+                    segs[0].text.lstrip().startswith('#') and isinstance(
+                        segs[-1], Lit) and segs[-1].text.endswith('\n') \
+                    and any(isinstance(x, Hole) and 'SYM_e' in x.source
+                            for x in segs):
+                ok = True
     ctx.ob('C18.KEEP-OVERRIDE', ok, W, f.qual,
            'rules absent from the defaults',
            'are written out uncommented' if ok else
@@ -513,26 +615,77 @@ def check_keep_override(ctx):
 
 
 def check_merge(ctx):
+    """The effective policy: every file rule, plus the registered defaults
+    of the names no file defines - read off the generator's paths."""
+    from ..dte import inline_helpers
     prog = ctx.prog
     f = prog.func(GEN + '._generate_policy')
     W = ctx.where(f.module, f.node)
-    comps = [n for n in ast.walk(f.node) if isinstance(n, ast.ListComp)]
-    file_part = reg_part = None
-    for c in comps:
-        g = c.generators[0]
-        it = U(g.iter)
-        if it.endswith('.file_rules.items()') and not g.ifs:
-            file_part = c
-        if it.endswith('.registered_rules.items()'):
-            reg_part = c
-    ok_f = file_part is not None
-    ok_r = False
-    if reg_part is not None and len(reg_part.generators[0].ifs) == 1:
-        cond = reg_part.generators[0].ifs[0]
-        ok_r = isinstance(cond, ast.Compare) and isinstance(
-            cond.ops[0], ast.NotIn) and U(cond.comparators[0]).endswith(
-                '.file_rules') and U(cond.left) == U(
-                    reg_part.generators[0].target.elts[0])
+    sec = prog.func(GEN + '._sort_and_format_by_section')
+    t = Table(prog, f, inline=inline_helpers(
+        prog, modules={GEN}, classes=False,
+        exclude={sec.qual, GEN + '._get_enforcer'}), comps=True,
+        handler_paths=False, max_depth=4, max_paths=100000)
+    en = t.en
+
+    def loops_over(p, attr):
+        """[(cond, elem symbol)] of loops over <enforcer>.<attr>.items()"""
+        out = []
+        for c in p.conds:
+            if c.kind != 'loop':
+                continue
+            it = en.expand(c.expr)
+            mc = method_call(it, 'items') if isinstance(it, ast.Call) \
+                else None
+            if mc and U(mc[0]).endswith('.' + attr):
+                sym = [s_ for s_, d in en.defs.items() if isinstance(
+                    d, tuple) and d and d[0] == 'elem' and d[1] is c.expr]
+                out.append((c, sym[0] if sym else None))
+        return out
+
+    def emitted(p, sym):
+        """is RuleDefault(<elem name>, <elem rule>.check_str) collected?"""
+        for e in p.events:
+            if e.kind == 'call' and method_call(e.node, 'append') and \
+                    e.node.args:
+                a0 = en.expand(e.node.args[0])
+                if isinstance(a0, ast.Call) and prog.resolve(
+                        t.module_of(e.frame), a0.func) in RULE_CLASSES and \
+                        len(a0.args) >= 2 and U(a0.args[0]) == \
+                        '%s[0]' % sym and U(a0.args[1]) == \
+                        '%s[1].check_str' % sym:
+                    return True
+        return False
+
+    n_file = n_reg = 0
+    bad_f = bad_r = None
+    for p in t.paths:
+        if p.outcome.kind == 'raise':
+            continue
+        for c, sym in loops_over(p, 'file_rules'):
+            if not c.pol or sym is None:
+                continue
+            n_file += 1
+            if not emitted(p, sym) and bad_f is None:
+                bad_f = p
+        for c, sym in loops_over(p, 'registered_rules'):
+            if not c.pol or sym is None:
+                continue
+            n_reg += 1
+            infile = None
+            for cd in p.conds:
+                x = cd.expr
+                if cd.kind == 'test' and isinstance(x, ast.Compare) and \
+                        isinstance(x.ops[0], ast.In) and U(x.left) == \
+                        '%s[0]' % sym and U(en.expand(
+                            x.comparators[0])).endswith('.file_rules'):
+                    infile = cd.pol
+            em = emitted(p, sym)
+            if infile is None or em != (not infile):
+                bad_r = bad_r or p
+    ok_f = bad_f is None and n_file > 0
+    ok_r = bad_r is None and n_reg > 0
+    ctx.count(len(t.paths))
     ctx.ob('C18.MERGE', ok_f, W, f.qual, 'all file rules',
            'every rule of the operator\'s files is in the output' if ok_f
            else 'the effective-policy generator does not emit every file '
@@ -556,17 +709,38 @@ def check_merge(ctx):
 
 
 def check_redundant(ctx):
+    """A rule is reported (printed, or yielded by a helper whose elements
+    are printed) only under `file rule == registered default`."""
     prog = ctx.prog
     f = prog.func(GEN + '._list_redundant')
-    t = Table(prog, f)
     W = ctx.where(f.module, f.node)
+    region = [g for q, g in sorted(prog.region(f).items())
+              if g.module.name == GEN and g.name != '_get_enforcer']
+    helpers = {g.qual for g in region if g is not f and any(
+        isinstance(x, (ast.Yield, ast.YieldFrom)) for x in ast.walk(g.node))}
     bad = None
     n = 0
-    for p in t.paths:
-        for e in p.events:
-            if e.kind == 'call' and U(e.node.func) == 'print':
+    for g in [f] + [x for x in region if x.qual in helpers]:
+        t = Table(prog, g)
+        for p in t.paths:
+            for e in p.events:
+                is_print = e.kind == 'call' and U(e.node.func) == 'print'
+                is_yield = e.kind == 'yield' and g is not f
+                if not (is_print or is_yield):
+                    continue
                 n += 1
                 conds = p.conds[:e.nconds]
+                # printing the elements of a reporting helper as they come
+                arg = e.node.args[0] if is_print and e.node.args else None
+                if isinstance(arg, ast.Name) and arg.id.startswith('SYM_e'):
+                    d = t.en.defs.get(arg.id)
+                    src = t.expand(d[1]) if isinstance(d, tuple) else None
+                    if isinstance(src, ast.Call) and prog.callee_of(
+                            g, src) is not None and prog.callee_of(
+                                g, src).qual in helpers:
+                        if any(c.kind == 'test' for c in conds):
+                            bad = bad or p
+                        continue
                 eq = [c for c in conds if c.kind == 'test' and isinstance(
                     c.expr, ast.Compare) and isinstance(c.expr.ops[0],
                                                         ast.Eq)]
@@ -576,7 +750,7 @@ def check_redundant(ctx):
                     any('SYM_e' in U(x) for x in (
                         eq[-1].expr.left, eq[-1].expr.comparators[0]))
                 if not ok:
-                    bad = p
+                    bad = bad or p
     ctx.ob('C18.REDUNDANT', bad is None and n > 0, W, f.qual,
            'report condition (%d report paths)' % n,
            'a rule is reported only when the file rule equals the '
